@@ -11,8 +11,10 @@ R04b once / re-arm: the Watch body is post-dominated by node.completed = True (t
 R04c block end aborts interrupts: every `X.block_ended = True` is followed on all paths by
      _abort_block_interrupts(X), which marks children_complete and unregisters every interrupt whose
      node is a descendant of the block.
-R04d second line of defence: an interrupt aborted in this tick is still resumed once (the tick iterates a copy of the
-     interrupt list) and an Alarm re-arms itself when resumed, so nothing inside an ended block may start: in
+R04d nothing inside an ended block may start - in the main flow *and in interrupt handlers*: a Block inside a Watch/Alarm body is
+     walked by the handler, so after an End block issued from a nested Watch the handler reaches the block's next child; if that
+     is a Watch/Alarm it would be registered and run after the block that contains it has ended (before 6bffed86 there also was
+     the route of an aborted Alarm that was resumed once more in the same tick and re-armed itself): in
      PInterpreter._visit_children every `self.visit(child)` is dominated by the false outcome of
      `self._is_in_ended_block(child)` itself (a conjunction with another condition does not establish it), for the
      main flow and for interrupts alike.
@@ -198,6 +200,7 @@ def run(ctx) -> None:
     # ---- R04d
     ctx.rule("R04d", "no child of an ended block is visited (main flow and interrupts)")
     vc = pi.methods.get("_visit_children")
+    from ..util import local_single_defs as _lsd4d
     ctx.analysed(vc)
     gv = cfg_of(vc)
     visits = [n for n in gv.nodes if any(call_attr(c) == "visit" and norm(c.func) == "self.visit" for c in n.calls())]
@@ -207,13 +210,14 @@ def run(ctx) -> None:
         call = next(c for c in n.calls() if call_attr(c) == "visit")
         child = norm(call.args[0]) if call.args else "?"
         inst = f"_visit_children: self.visit({child}) only when the child is not in an ended block"
-        facts = facts_at(gv, n)
+        facts = facts_at(gv, n, _lsd4d(vc))
         if (f"self._is_in_ended_block({child})", False) in facts:
             ctx.ok("R04d", inst)
         else:
             ctx.fail("R04d", vc, n.ast, inst, "a child can be visited although it lies in a block that has ended (the ended-block test is "
-                     "missing or weakened by a further condition): an Alarm that was aborted in this tick is resumed once more, "
-                     "re-arms itself and its body runs after the block has ended")
+                     "missing or weakened by a further condition): a Block in a Watch/Alarm body is walked by the interrupt handler - after "
+                     "`End block` from a nested Watch the handler reaches the block's next Watch/Alarm, registers it and its body runs "
+                     "after the block has ended")
 
     # ---- R04e
     ctx.rule("R04e", "no reachable request history invokes the body of a cancelled Watch/Alarm")
